@@ -271,6 +271,8 @@ partial def handle : List String → String
     | _, _, _, _, _, _, _ => "bad-op"
   -- SignTxOutput on a pkScript class it cannot sign must return an error (never a script)
   | ["signclass", _class, _obs] => "err"
+  -- helper-signed at exec time, unmutated: must verify
+  | ["signexec", _kind, _seed, _ht, _nIn, _nOut, _idx] => "verified"
   | ["helper", form, ht, idx, _nIns, nOuts, _obs] =>
     match Expect.Form.parse? form, u32? ht, idx.toNat?, nOuts.toNat? with
     | some form, some ht, some idx, some nOuts =>
